@@ -1572,3 +1572,51 @@ def c11_families(tier, seed, ids=None):
 c11_rule = ("17 binary operators x 18x18 operands (ints, exact floats, signed zero, NaN, +-Inf, booleans, strings, arrays (one holding NaN), nil, a function) each written bare, "
             "negated, doubly negated, through globals, through an assigned temporary, as array elements, through parameters of a function, under unary minus and compared with "
             "itself; 4 unary operators x 18 operands nested")
+
+
+# =============================================================== C01: the same code run again after names were rebound
+
+def c01_rebinding(tier, seed, first_id=3500000):
+    """Call sites and variable reads that execute more than once while the names they mention are rebound in between: a function called
+    through a global that is redefined (to another function, to a non-function, back), through a loop variable bound to a different
+    function in every iteration, through a local rebound inside a loop, through an array element; recursion through the global name."""
+    ids = Ids(first_id)
+    out = []
+    f1 = fn(["n"], bin_("+", N("n"), I(1)))
+    f2 = fn(["n"], bin_("*", N("n"), I(10)))
+    f3 = fn(["n"], lst([N("n"), N("n")]))
+    callers = {"direct": fn(["n"], call("inc", N("n"))), "nested": fn(["n"], call("inc", call("inc", N("n")))), "operand": fn(["n"], bin_("+", call("inc", N("n")), I(100))),
+               "loop": fn(["n"], block([assign("t", lst([])), fr(["i"], [call("fromto", I(0), N("n"))], assign("t", bin_("+", N("t"), lst([call("inc", N("i"))])))), N("t")])),
+               "gen": fn(["n"], fr(["i"], [call("fromto", I(0), N("n"))], y(call("inc", N("i")))))}
+    for cname, c in callers.items():
+        use = call("user", I(2)) if cname != "gen" else fr(["q"], [call("user", I(2))], N("q"))
+        for seq in ([f1, f2], [f1, f2, f1], [f1, f3, I(7), f2], [f1, St("inc"), f1]):
+            items = [assign("user", c)]
+            for v in seq:
+                items += [assign("inc", v), use, use]
+            out.append(mk(ids, items, {"rebinding": "global callee", "caller": cname, "steps": len(seq)}))
+    # the callee is a loop variable / a variable rebound in the loop body
+    gen3 = assign("fns", fn([], block([y(f1), y(f2), y(f3), y(f1)])))
+    out.append(mk(ids, [gen3, fr(["h"], [call("fns")], call("h", I(5))), fr(["h"], [call("fns")], wr(call("h", I(5)))), assign("u", fn([], block([assign("t", lst([])), fr(["h"], [call("fns")], assign("t", bin_("+", N("t"), lst([call("h", I(5))])))), N("t")]))), call("u"), call("u")],
+                  {"rebinding": "loop variable as callee"}))
+    out.append(mk(ids, [assign("cur", f1), assign("k", I(0)), assign("acc", lst([])),
+                        wh(bin_("<", N("k"), I(4)), block([assign("k", bin_("+", N("k"), I(1))), assign("acc", bin_("+", N("acc"), lst([call("cur", N("k"))]))), ife(bin_("==", bin_("%", N("k"), I(2)), I(1)), assign("cur", f2), assign("cur", f3))])),
+                        N("acc"), call("cur", I(1))], {"rebinding": "callee rebound in the loop body, top level"}))
+    out.append(mk(ids, [assign("w", fn(["m"], block([assign("cur", f1), assign("k", I(0)), assign("acc", lst([])),
+                        wh(bin_("<", N("k"), N("m")), block([assign("k", bin_("+", N("k"), I(1))), assign("acc", bin_("+", N("acc"), lst([call("cur", N("k"))]))), ife(bin_("==", bin_("%", N("k"), I(2)), I(1)), assign("cur", f2), assign("cur", f3))])),
+                        N("acc")]))), call("w", I(4)), call("w", I(3))], {"rebinding": "callee rebound in the loop body, local"}))
+    # recursion goes through the global name
+    rec = fn(["n"], ife(bin_("<=", N("n"), I(0)), I(0), bin_("+", call("r", bin_("-", N("n"), I(1))), I(1))))
+    out.append(mk(ids, [assign("r", rec), call("r", I(3)), assign("keep", N("r")), assign("r", fn(["n"], I(100))), call("keep", I(3)), call("r", I(3)), assign("r", N("keep")), call("r", I(3)), call("keep", I(2))],
+                  {"rebinding": "recursion through the global name"}))
+    # a global read (not called) by code that runs again
+    rd = fn([], bin_("+", N("gv"), N("gv")))
+    out.append(mk(ids, [assign("rd", rd), assign("gv", I(1)), call("rd"), assign("gv", St("s")), call("rd"), assign("gv", lst([I(1)])), call("rd"), assign("gv", f1), call("rd"), assign("gv", I(4)), call("rd")],
+                  {"rebinding": "global read"}))
+    out.append(mk(ids, [assign("gv", I(0)), assign("tick", fn([], fr(["i"], [call("fromto", I(0), I(3))], y(bin_("+", N("gv"), N("i")))))),
+                        fr(["q"], [call("tick")], block([assign("gv", bin_("+", N("gv"), I(10))), N("q")])), N("gv"),
+                        fr(["q"], [call("tick")], block([assign("gv", bin_("*", N("q"), I(2))), wr(N("q"))]))], {"rebinding": "global rebound by the loop body between resumptions of the generator that reads it"}))
+    # builtins' names as ordinary globals that are rebound and restored
+    out.append(mk(ids, [assign("old", N("fromto")), assign("fromto", fn(["a", "b"], y(I(42)))), fr(["i"], [call("fromto", I(0), I(3))], N("i")), assign("fromto", N("old")), fr(["i"], [call("fromto", I(0), I(3))], N("i"))],
+                  {"rebinding": "a built-in's name"}))
+    return ("the same code run again after the names it mentions were rebound", out, ("value",))
